@@ -32,6 +32,23 @@ type SOp struct {
 	OK bool   `json:"ok,omitempty"`
 	D  int    `json:"d,omitempty"`
 	P  int    `json:"p,omitempty"` // race: number of concurrent callers
+	// Ctx (auth, assign, term): the context handed to the Manager: 0 live, 1 already cancelled, 2 deadline already expired
+	Ctx int `json:"ctx,omitempty"`
+	// RelFail (term): the allocator's ReleaseIPv4 returns an error for this call (backend failure)
+	RelFail bool `json:"rel_fail,omitempty"`
+}
+
+// mkCtx builds the caller's context of an op.
+func mkCtx(mode int) (context.Context, context.CancelFunc) {
+	switch mode {
+	case 1:
+		ctx, cancel := context.WithCancel(context.Background())
+		cancel()
+		return ctx, cancel
+	case 2:
+		return context.WithDeadline(context.Background(), time.Now().Add(-time.Hour))
+	}
+	return context.WithCancel(context.Background())
 }
 
 type SCase struct {
@@ -45,7 +62,8 @@ type fakeAlloc struct {
 	alloc   map[uint64]bool
 	events  *[][2]uint64
 	evmu    *sync.Mutex
-	barrier int // > 0: ReleaseIPv4 waits until this many callers are inside (or 150 ms)
+	relFail bool // the next ReleaseIPv4 fails (injected backend error)
+	barrier int  // > 0: ReleaseIPv4 waits until this many callers are inside (or 150 ms)
 	inside  int
 	cond    *sync.Cond
 }
@@ -59,6 +77,10 @@ func sIPNum(ip net.IP) uint64 {
 }
 
 func (a *fakeAlloc) AllocateIPv4(ctx context.Context, s *subscriber.Session, poolID string) (net.IP, net.IPMask, net.IP, error) {
+	// like a real (remote) allocator, this one honours the caller's context
+	if err := ctx.Err(); err != nil {
+		return nil, nil, nil, err
+	}
 	a.mu.Lock()
 	defer a.mu.Unlock()
 	if len(a.avail) == 0 {
@@ -85,6 +107,18 @@ func (a *fakeAlloc) ReleaseIPv4(ctx context.Context, ip net.IP) error {
 		t.Stop()
 	}
 	n := sIPNum(ip)
+	// a done context or a backend error: nothing is released, the call fails (event 7)
+	if err := ctx.Err(); err != nil || a.relFail {
+		a.relFail = false
+		a.mu.Unlock()
+		a.evmu.Lock()
+		*a.events = append(*a.events, [2]uint64{7, n})
+		a.evmu.Unlock()
+		if err == nil {
+			err = fmt.Errorf("allocator backend unavailable")
+		}
+		return err
+	}
 	if a.alloc[n] {
 		delete(a.alloc, n)
 		a.avail = append(a.avail, n)
@@ -100,6 +134,9 @@ func (a *fakeAlloc) ReleaseIPv6(ctx context.Context, ip net.IP) error { return n
 type fakeAuth struct{ ok bool }
 
 func (f *fakeAuth) Authenticate(ctx context.Context, req *subscriber.SessionRequest) (*subscriber.AuthResult, error) {
+	if err := ctx.Err(); err != nil { // a RADIUS round trip on a done context fails
+		return nil, err
+	}
 	if f.ok {
 		return &subscriber.AuthResult{Success: true, SubscriberID: "sub"}, nil
 	}
@@ -183,6 +220,8 @@ func (w *sworld) apply(o SOp, tags map[string]bool) string {
 	var op string
 	errc := 0
 	ctx := context.Background()
+	octx, ocancel := mkCtx(o.Ctx)
+	defer ocancel()
 	w.events = nil
 	id := w.byOrd[uint64(o.N)]
 	if id == "" {
@@ -203,19 +242,31 @@ func (w *sworld) apply(o SOp, tags map[string]bool) string {
 			w.ids[s.ID], w.byOrd[n] = n, s.ID
 		}
 	case "auth":
-		op = fmt.Sprintf("SAuth %d %s", o.N, vh.Bool(o.OK))
+		op = fmt.Sprintf("SAuth %d %s %d", o.N, vh.Bool(o.OK), o.Ctx)
 		w.au.ok = o.OK
-		_, err := w.mgr.Authenticate(ctx, id)
+		_, err := w.mgr.Authenticate(octx, id)
 		chk(err)
 	case "assign":
-		op = fmt.Sprintf("SAssign %d", o.N)
-		chk(w.mgr.AssignAddress(ctx, id, "pool4", ""))
+		op = fmt.Sprintf("SAssign %d %d", o.N, o.Ctx)
+		chk(w.mgr.AssignAddress(octx, id, "pool4", ""))
 	case "activate":
 		op = fmt.Sprintf("SActivate %d", o.N)
 		chk(w.mgr.ActivateSession(id))
 	case "term":
-		op = fmt.Sprintf("STerminate %d", o.N)
-		chk(w.mgr.TerminateSession(ctx, id, subscriber.TerminateAdminReset))
+		op = fmt.Sprintf("STerminate %d %d %s", o.N, o.Ctx, vh.Bool(o.RelFail))
+		w.al.mu.Lock()
+		w.al.relFail = o.RelFail
+		w.al.mu.Unlock()
+		chk(w.mgr.TerminateSession(octx, id, subscriber.TerminateAdminReset))
+		w.al.mu.Lock()
+		w.al.relFail = false
+		w.al.mu.Unlock()
+		if o.Ctx != 0 {
+			tags[fmt.Sprintf("term-ctx:%d", o.Ctx)] = true
+		}
+		if o.RelFail {
+			tags["term-relfail"] = true
+		}
 	case "age":
 		op = fmt.Sprintf("SAge %d%%Z", o.D)
 		w.mgr.VerifC16Age(time.Duration(o.D) * time.Second)
@@ -320,6 +371,10 @@ func runSubmgr(c SCase) vh.Case {
 var sEstablish = []string{"create", "auth", "assign", "activate"}
 var sEnds = []string{"term", "idle", "timeout", "stop"}
 
+// ending attempts that may fail or be aborted: terminate on a cancelled / expired context, terminate
+// while the allocator's release fails
+var sAborts = []string{"term-cancelled", "term-deadline", "term-relfail", "term-cancelled-relfail"}
+
 func sEndOps(kind string, n int, cfg SCfg) []SOp {
 	switch kind {
 	case "term":
@@ -332,6 +387,14 @@ func sEndOps(kind string, n int, cfg SCfg) []SOp {
 		return []SOp{{K: "stop"}}
 	case "race":
 		return []SOp{{K: "race", N: n, P: 2}}
+	case "term-cancelled":
+		return []SOp{{K: "term", N: n, Ctx: 1}}
+	case "term-deadline":
+		return []SOp{{K: "term", N: n, Ctx: 2}}
+	case "term-relfail":
+		return []SOp{{K: "term", N: n, RelFail: true}}
+	case "term-cancelled-relfail":
+		return []SOp{{K: "term", N: n, Ctx: 1, RelFail: true}}
 	}
 	return nil
 }
@@ -340,8 +403,9 @@ func enumSubmgr() []SCase {
 	var out []SCase
 	cfg := SCfg{Addrs: 4, SessionSec: 86400, IdleSec: 1800}
 	for prefix := 1; prefix <= 4; prefix++ {
-		for _, e1 := range append(sEnds, "race") {
-			for _, e2 := range append([]string{""}, sEnds...) {
+		for _, e1 := range append(append(append([]string{}, sEnds...), "race"), sAborts...) {
+			// a failed / aborted attempt is followed by every other ending path (and by nothing)
+			for _, e2 := range append(append([]string{""}, sEnds...), "race", "term-cancelled") {
 				var ops []SOp
 				for i := 0; i < prefix; i++ {
 					ops = append(ops, SOp{K: sEstablish[i], C: 0, N: 1, OK: true})
@@ -349,6 +413,8 @@ func enumSubmgr() []SCase {
 				ops = append(ops, sEndOps(e1, 1, cfg)...)
 				ops = append(ops, sEndOps(e2, 1, cfg)...)
 				if e1 != "stop" && e2 != "stop" {
+					// whatever happened: one more live termination must find the session gone or end it
+					ops = append(ops, SOp{K: "term", N: 1})
 					for i := 0; i < 4; i++ {
 						ops = append(ops, SOp{K: sEstablish[i], C: 1, N: 2, OK: true})
 					}
@@ -382,12 +448,32 @@ func genRandS(r *vh.Rng, maxOps int, guarded bool) SCase {
 			if stage[s] == 2 && r.Chance(1, 8) && !guarded {
 				continue
 			}
-			c.Ops = append(c.Ops, SOp{K: sEstablish[stage[s]], N: s, OK: r.Chance(5, 6)})
+			o := SOp{K: sEstablish[stage[s]], N: s, OK: r.Chance(5, 6)}
+			if (o.K == "auth" || o.K == "assign") && r.Chance(1, 6) {
+				o.Ctx = 1 + r.Intn(2) // the step fails on a done context; it is retried below
+				c.Ops = append(c.Ops, o)
+				continue
+			}
+			c.Ops = append(c.Ops, o)
 			stage[s]++
 		case x < 13:
-			c.Ops = append(c.Ops, SOp{K: "term", N: s})
+			t := SOp{K: "term", N: s}
 			if r.Chance(1, 3) {
-				c.Ops = append(c.Ops, SOp{K: "term", N: s})
+				t.Ctx = 1 + r.Intn(2)
+			}
+			if !guarded && r.Chance(1, 8) {
+				t.RelFail = true
+			}
+			c.Ops = append(c.Ops, t)
+			if r.Chance(1, 2) { // follow the attempt by another ending path
+				switch r.Intn(3) {
+				case 0:
+					c.Ops = append(c.Ops, SOp{K: "term", N: s})
+				case 1:
+					c.Ops = append(c.Ops, SOp{K: "age", D: 90000}, SOp{K: "tick"})
+				default:
+					c.Ops = append(c.Ops, SOp{K: "term", N: s, Ctx: 1 + r.Intn(2)}, SOp{K: "term", N: s})
+				}
 			}
 		case x < 15:
 			if !guarded && stage[s] >= 3 {
